@@ -4,7 +4,7 @@ CONSTANTS
   Users = {"me", "a", "b"}
   Me = "me"
   Texts = {"t1"}
-  Vals = {1}
+  Vals = {0}
   UserSets <- C_UserSetsSmall
   Owners <- C_OwnersSmall
   OpSets <- C_OpSetsSmall
